@@ -54,6 +54,14 @@ def fx(x, S):
     return int(round(v))
 
 
+def _hw2(box, cpt):
+    """squared half-width of the first coordinate as the library computes it (DOO's default delta), scale 2^13"""
+    try:
+        return fx(max((box[0][0] - cpt[0]) ** 2, (box[0][1] - cpt[0]) ** 2), 8192)
+    except OverflowError:
+        return BIG
+
+
 def capint(x):
     """integer-valued float (np.ceil result) -> int capped at BIG"""
     try:
@@ -519,7 +527,10 @@ class SessionRec:
                 if okb and okc and all(math.isfinite(v) for v in (box[x][0], box[x][1], cpt[x])):
                     lo, hi = box[x]
                     w = hi - lo
-                    relc.append(int(round((cpt[x] - lo) / w * REL)) if w > 0 and math.isfinite(w) else -2)
+                    try:
+                        relc.append(int(round((cpt[x] - lo) / w * REL)) if w > 0 and math.isfinite(w) else -2)
+                    except (OverflowError, ValueError):
+                        relc.append(-2)
                     u = Fraction(math.ulp(max(abs(lo), abs(hi), 5e-324)))
                     dev = abs(2 * Fraction(cpt[x]) - Fraction(lo) - Fraction(hi)) / u   # |cpt - mid| in half-ulps
                     cdev.append(min(1000, int(math.ceil(dev))))
@@ -546,7 +557,7 @@ class SessionRec:
                 "relw": relw,
                 "cdev": cdev,
                 "wdev": wdev,
-                "hw2": fx(max((box[0][0] - cpt[0]) ** 2, (box[0][1] - cpt[0]) ** 2), 8192) if okb and okc else -1,
+                "hw2": _hw2(box, cpt) if okb and okc else -1,
             }
 
         out = []
